@@ -22,13 +22,13 @@ func (c04) Meta() fw.Meta {
 		ID: "C04",
 		Rule: "case = (layout, clock); three files of that layout (never written / every archive written / a random subset of archives written) are each fetched with every archive id in {-2,-1(best),0..n-1,n,n+7} " +
 			"x ~60 windows (all combinations of from/until in {before the retention edge, edge-1, edge, edge+1, inside, now-1, now, now+1, future}, from=0, from>until, degenerate, sub-step, aligned/unaligned); " +
-			"oracle: closed-form shape (error / absent / from, until, step, count, i-th time) computed from layout, id, window and clock only; the three files must give the same shape. " +
+			"oracle: closed-form shape (error / absent / from, until, step, count, i-th time) computed from layout, id, window and clock only; the three files must give the same shape; the whole product is repeated with a reader clock BEHIND the write clock. " +
 			"non-trivial = case observed an absent result, a degenerate-window extension and a clamped window; distinct by (layout, clock).",
 		Assumptions: []string{
 			"clock domain: maxRetention + 2*maxStep <= now and now + 2*maxStep < 2^32",
 			"the Fetch() convenience wrapper is driven through the library's settable clock whispertool.Now (one worker process = one clock)",
 		},
-		Obligations: []string{"shape_checks", "absent_future", "absent_too_old", "error_from_after_until", "error_bad_id", "degenerate_extended", "clamped_from", "clamped_until", "best_selected_coarser", "never_written_checked", "written_checked", "wrapper_fetch_checked"},
+		Obligations: []string{"shape_checks", "absent_future", "absent_too_old", "error_from_after_until", "error_bad_id", "degenerate_extended", "clamped_from", "clamped_until", "best_selected_coarser", "never_written_checked", "written_checked", "wrapper_fetch_checked", "reader_clock_behind_passes"},
 	}
 }
 
@@ -127,121 +127,136 @@ func (c04) Run(c *fw.Ctx) {
 	ids = append(ids, k, k+7)
 
 	sawAbsent, sawDegen, sawClamp := false, false, false
-	for _, id := range ids {
-		// window endpoints are built relative to the archive the id denotes (coarsest for best/out of range)
-		ref := l.Archs[k-1]
-		if id >= 0 && id < k {
-			ref = l.Archs[id]
-		} else if id == -1 {
-			ref = l.Archs[r.Intn(k)]
+	// the whole id x window product is run twice: at the clock of the writes, and at an EARLIER clock (a reader
+	// whose clock is behind the writer's: slots then hold intervals "from the future"); the shape must not care
+	writeClock := now
+	for pass := 0; pass < 2; pass++ {
+		if pass == 1 {
+			a := l.Archs[r.Intn(k)]
+			back := []int64{1, int64(a.Step), a.Ret() / 2, a.Ret() + int64(a.Step)*int64(1+r.Intn(3))}[r.Intn(4)]
+			if writeClock-back < l.MaxRet()+2*l.MaxStep() {
+				break
+			}
+			now = writeClock - back
+			c.Count("reader_clock_behind_passes", 1)
 		}
-		S := int64(ref.Step)
-		edge := now - ref.Ret()
-		inside := func() int64 { return now - r.Int63n(ref.Ret()+1) }
-		pts := []int64{edge - 3*S - r.Int63n(S+1), edge - 1, edge, edge + 1, inside(), inside(), now - 1, now, now + 1, now + 2*S + r.Int63n(S+1), 0}
-		var ws [][2]int64
-		for _, f := range pts {
-			for _, u := range pts {
-				ws = append(ws, [2]int64{f, u})
+		for _, id := range ids {
+			// window endpoints are built relative to the archive the id denotes (coarsest for best/out of range)
+			ref := l.Archs[k-1]
+			if id >= 0 && id < k {
+				ref = l.Archs[id]
+			} else if id == -1 {
+				ref = l.Archs[r.Intn(k)]
 			}
-		}
-		// degenerate / sub-step / aligned / unaligned specials
-		for j := 0; j < 8; j++ {
-			f := inside()
-			ws = append(ws, [2]int64{f, f})
-			ws = append(ws, [2]int64{f, minI64(f+r.Int63n(S), 1<<32-1)})
-			al := model.AlignDown(f, ref.Step)
-			ws = append(ws, [2]int64{al, al}, [2]int64{al, al + S}, [2]int64{al - 1, al}, [2]int64{al + 1, al + S - 1})
-		}
-		// keep a deterministic subset to bound cost
-		r.Shuffle(len(ws), func(i, j int) { ws[i], ws[j] = ws[j], ws[i] })
-		if len(ws) > 70 {
-			ws = ws[:70]
-		}
-		for _, w := range ws {
-			from, until := w[0], w[1]
-			if from < 0 {
-				from = 0
-			}
-			if until < 0 {
-				until = 0
-			}
-			if from > math.MaxUint32 {
-				from = math.MaxUint32
-			}
-			if until > math.MaxUint32 {
-				until = math.MaxUint32
-			}
-			want := model.FetchShape(l, id, from, until, now)
-			var first shapeObs
-			for fi, f := range files {
-				ts, err := f.db.FetchFromArchive(id, u32(from), u32(until), u32(now))
-				o := observeShape(ts, err)
-				c.Count("shape_checks", 1)
-				if fi == 0 {
-					c.Count("never_written_checked", 1)
-					first = o
-				} else {
-					c.Count("written_checked", 1)
+			S := int64(ref.Step)
+			edge := now - ref.Ret()
+			inside := func() int64 { return now - r.Int63n(ref.Ret()+1) }
+			pts := []int64{edge - 3*S - r.Int63n(S+1), edge - 1, edge, edge + 1, inside(), inside(), now - 1, now, now + 1, now + 2*S + r.Int63n(S+1), 0}
+			var ws [][2]int64
+			for _, f := range pts {
+				for _, u := range pts {
+					ws = append(ws, [2]int64{f, u})
 				}
-				detail := fw.J{"layout": l, "now": now, "id": id, "from": from, "until": until, "file": f.name, "want": want, "got": o}
-				if o.bad != "" {
-					c.Violationf("series-internally-inconsistent", detail, "file %s id %d window [%d,%d] now %d: %s", f.name, id, from, until, now, o.bad)
+			}
+			// degenerate / sub-step / aligned / unaligned specials
+			for j := 0; j < 8; j++ {
+				f := inside()
+				ws = append(ws, [2]int64{f, f})
+				ws = append(ws, [2]int64{f, minI64(f+r.Int63n(S), 1<<32-1)})
+				al := model.AlignDown(f, ref.Step)
+				ws = append(ws, [2]int64{al, al}, [2]int64{al, al + S}, [2]int64{al - 1, al}, [2]int64{al + 1, al + S - 1})
+			}
+			// keep a deterministic subset to bound cost
+			r.Shuffle(len(ws), func(i, j int) { ws[i], ws[j] = ws[j], ws[i] })
+			if len(ws) > 70 {
+				ws = ws[:70]
+			}
+			for _, w := range ws {
+				from, until := w[0], w[1]
+				if from < 0 {
+					from = 0
 				}
-				if !shapeEqual(o, want) {
-					key := "shape-mismatch"
-					switch {
-					case want.Err != o.Err:
-						key = "shape-error-mismatch"
-					case want.Absent != o.Absent:
-						key = "shape-absent-mismatch"
+				if until < 0 {
+					until = 0
+				}
+				if from > math.MaxUint32 {
+					from = math.MaxUint32
+				}
+				if until > math.MaxUint32 {
+					until = math.MaxUint32
+				}
+				want := model.FetchShape(l, id, from, until, now)
+				var first shapeObs
+				for fi, f := range files {
+					ts, err := f.db.FetchFromArchive(id, u32(from), u32(until), u32(now))
+					o := observeShape(ts, err)
+					c.Count("shape_checks", 1)
+					if fi == 0 {
+						c.Count("never_written_checked", 1)
+						first = o
+					} else {
+						c.Count("written_checked", 1)
 					}
-					c.Violationf(key, detail, "file %s id %d window [%d,%d] now %d: got %s, contract demands %s", f.name, id, from, until, now, fw.JSON(o), fw.JSON(want))
+					detail := fw.J{"layout": l, "now": now, "id": id, "from": from, "until": until, "file": f.name, "want": want, "got": o}
+					if o.bad != "" {
+						c.Violationf("series-internally-inconsistent", detail, "file %s id %d window [%d,%d] now %d: %s", f.name, id, from, until, now, o.bad)
+					}
+					if !shapeEqual(o, want) {
+						key := "shape-mismatch"
+						switch {
+						case want.Err != o.Err:
+							key = "shape-error-mismatch"
+						case want.Absent != o.Absent:
+							key = "shape-absent-mismatch"
+						}
+						c.Violationf(key, detail, "file %s id %d window [%d,%d] now %d: got %s, contract demands %s", f.name, id, from, until, now, fw.JSON(o), fw.JSON(want))
+					}
+					if fi > 0 && (o.Err != first.Err || o.Absent != first.Absent || o.From != first.From || o.Until != first.Until || o.Step != first.Step || o.N != first.N) {
+						c.Violationf("shape-depends-on-content", fw.J{"layout": l, "now": now, "id": id, "from": from, "until": until, "never_written": first, "written": o, "file": f.name},
+							"id %d window [%d,%d] now %d: never-written file gives %s, %s file gives %s", id, from, until, now, fw.JSON(first), f.name, fw.JSON(o))
+					}
+					if c.Violated() {
+						return
+					}
 				}
-				if fi > 0 && (o.Err != first.Err || o.Absent != first.Absent || o.From != first.From || o.Until != first.Until || o.Step != first.Step || o.N != first.N) {
-					c.Violationf("shape-depends-on-content", fw.J{"layout": l, "now": now, "id": id, "from": from, "until": until, "never_written": first, "written": o, "file": f.name},
-						"id %d window [%d,%d] now %d: never-written file gives %s, %s file gives %s", id, from, until, now, fw.JSON(first), f.name, fw.JSON(o))
-				}
-				if c.Violated() {
-					return
-				}
-			}
-			// coverage bookkeeping from the oracle's point of view
-			switch {
-			case want.Err && from > until:
-				c.Count("error_from_after_until", 1)
-			case want.Err:
-				c.Count("error_bad_id", 1)
-			case want.Absent && from > now:
-				c.Count("absent_future", 1)
-				sawAbsent = true
-			case want.Absent:
-				c.Count("absent_too_old", 1)
-				sawAbsent = true
-			default:
-				a := l.Archs[want.Arch]
-				cf, cu := from, until
-				if from < now-a.Ret() {
-					c.Count("clamped_from", 1)
-					cf = now - a.Ret()
-					sawClamp = true
-				}
-				if until > now {
-					c.Count("clamped_until", 1)
-					cu = now
-					sawClamp = true
-				}
-				if model.AlignNext(cf, a.Step) == model.AlignNext(cu, a.Step) {
-					c.Count("degenerate_extended", 1)
-					sawDegen = true
-				}
-				if id == -1 && want.Arch > 0 {
-					c.Count("best_selected_coarser", 1)
+				// coverage bookkeeping from the oracle's point of view
+				switch {
+				case want.Err && from > until:
+					c.Count("error_from_after_until", 1)
+				case want.Err:
+					c.Count("error_bad_id", 1)
+				case want.Absent && from > now:
+					c.Count("absent_future", 1)
+					sawAbsent = true
+				case want.Absent:
+					c.Count("absent_too_old", 1)
+					sawAbsent = true
+				default:
+					a := l.Archs[want.Arch]
+					cf, cu := from, until
+					if from < now-a.Ret() {
+						c.Count("clamped_from", 1)
+						cf = now - a.Ret()
+						sawClamp = true
+					}
+					if until > now {
+						c.Count("clamped_until", 1)
+						cu = now
+						sawClamp = true
+					}
+					if model.AlignNext(cf, a.Step) == model.AlignNext(cu, a.Step) {
+						c.Count("degenerate_extended", 1)
+						sawDegen = true
+					}
+					if id == -1 && want.Arch > 0 {
+						c.Count("best_selected_coarser", 1)
+					}
 				}
 			}
 		}
-	}
 
+	}
+	now = writeClock
 	// the Fetch(from, until) wrapper reads the settable clock
 	oldNow := wt.Now
 	wt.Now = func() time.Time { return time.Unix(now, 0) }
